@@ -353,3 +353,52 @@ def run_judged(scripts, flags=("wf", "tree", "info"), variant="default", timeout
         for k, jd in enumerate(per_chunk[i]):
             res[i + k * n] = jd
     return res
+
+
+def dir_heavy_session(rng, conf, nfiles=14):
+    """a sub-directory (and, on FAT32, the root) that grows over several NON-contiguous clusters, entries whose slots straddle
+    or start exactly at cluster boundaries (name lengths vary the slot count), every file later re-opened BY PATH, modified and
+    dropped; ends with remount + full traversal.  Returns the script (head + ops)."""
+    label, size, fmt = conf
+    head = ["dev %d 0" % size, "wlog 0", fmt, "pages", "wlog 1", "mount 1 0 lossy"]
+    lines = ["create_dir 0 %s 1" % hexs("deep")]
+    names = []
+    h = 10
+    for i in range(nfiles):
+        # 13*k-1 / 13*k / 13*k+1 units -> k or k+1 long-name slots: shifts where the short entry lands
+        ln = rng.choice([1, 5, 12, 13, 14, 25, 26, 27, 38, 39, 40])
+        nm = ("n%02d" % i) + "x" * max(0, ln - 3) + rng.choice(["", ".t", ".dat"])
+        names.append(nm)
+        h += 1
+        lines += ["create_file 1 %s %d" % (hexs(nm), h)]
+        if rng.chance(1, 2):
+            lines += ["write_pat %d %d %d" % (h, rng.range(1, 700), i)]
+        lines += ["drop_file %d" % h]
+        if rng.chance(1, 2):
+            # something else takes the next cluster(s): the directory's following cluster cannot be adjacent
+            h += 1
+            lines += ["create_file 0 %s %d" % (hexs("frag%02d.bin" % i), h), "write_pat %d %d %d" % (h, rng.range(1, 1500), i + 50), "drop_file %d" % h]
+    lines += ["drop_all"]
+    order = list(range(len(names))); rng.shuffle(order)
+    for i in order:
+        h += 1
+        path = "deep/" + names[i]
+        k = rng.below(4)
+        lines += ["open_file 0 %s %d" % (hexs(path if rng.chance(2, 3) else path.upper()), h)]
+        if k == 0:
+            lines += ["seek %d end 0" % h, "write_pat %d %d %d" % (h, rng.range(1, 900), i + 100)]
+        elif k == 1:
+            lines += ["write %d %s" % (h, hexs(b"overwritten at the start"))]
+        elif k == 2:
+            lines += ["seek %d start %d" % (h, rng.range(0, 40)), "truncate %d" % h]
+        else:
+            lines += ["read %d 50" % h]
+        lines += ["drop_file %d" % h]
+        if rng.chance(1, 5):
+            lines += ["remove 0 %s" % hexs("deep/" + names[(i + 3) % len(names)])] if False else []
+    lines += ["drop_all", "unmount", "mount 1 0 lossy", "list 0", "open_dir 0 %s 2" % hexs("deep"), "list 2"]
+    for nm in names:
+        h += 1
+        lines += ["open_file 2 %s %d" % (hexs(nm), h), "read_all %d 100000" % h, "extents %d" % h, "drop_file %d" % h]
+    lines += ["drop_all", "unmount"]
+    return head + lines
